@@ -78,6 +78,38 @@ func runC13(c *Ctx) {
 			}
 		}
 		if len(got) == 0 {
+			// the switch may assign the tag and build the token once after it: the tag is a merge of
+			// constants whose incoming edges carry `word == "kw"`
+			tagNames := constNames(p.Lang.Types, "TokenTag")
+			allInstrs(id, func(in ssa.Instruction) {
+				phi, ok := in.(*ssa.Phi)
+				if !ok || !isLangNamed(phi.Type(), "TokenTag") || len(phi.Edges) < 10 {
+					return
+				}
+				for i, e := range phi.Edges {
+					k, isC := constInt(e)
+					if !isC {
+						continue
+					}
+					for _, rl := range FactsOf(id).OnEdge(phi.Block().Preds[i], phi.Block()).Rels() {
+						if w, isS := constString(rl.y); isS && rl.op == relEQ && p.Render(rl.x) == "l.src[l.tokenStart:l.pos]" {
+							got[w] = tagNames[k]
+						}
+					}
+				}
+				// the merged tag is what the token carries
+				used := false
+				for _, rc := range p.successResults(id) {
+					if strings.Contains(rc.Value, "Tag: "+p.Render(phi)) {
+						used = true
+					}
+				}
+				if !used {
+					got = map[string]string{}
+				}
+			})
+		}
+		if len(got) == 0 {
 			// the keywords may be kept in a package-level table that the word is looked up in:
 			// `if tag, ok := table[word]; ok { return token(tag) }`; the table's entries are those its
 			// initialiser stores, and nothing else may write to it
@@ -320,6 +352,21 @@ func c13Operators(c *Ctx) {
 				case isPeek && rl.op == relNE:
 					ne[ch] = true
 				}
+			}
+			// a table of one-byte tokens indexed by the byte: `if tag := table[c]; tag != 0 { return token(tag) }`
+			// (the table's entries are those its initialiser stores; nothing else may write to it)
+			if tb := byteTableOf(p, res[0], cVal); tb != nil {
+				for k, t := range tb {
+					if t == "(written elsewhere)" {
+						c.undecided("R5", "byte-table", p.InstrPos(r), "the token table indexed by the first byte is written outside its initialiser")
+						continue
+					}
+					got[string(rune(k))] = t
+					if excl[string(rune(k))] == nil {
+						excl[string(rune(k))] = map[string]bool{}
+					}
+				}
+				continue
 			}
 			if first == "" {
 				continue
@@ -1033,4 +1080,101 @@ func isPrivateTo(p *Program, h, fn *ssa.Function) bool {
 func isBasicString(T types.Type) bool {
 	b, ok := T.Underlying().(*types.Basic)
 	return ok && b.Kind() == types.String
+}
+
+// byteTableOf: when the token value `v` carries a tag read from a package-level array indexed by the
+// byte `idx`, the entries of that array as its initialiser stores them (index -> tag name).
+func byteTableOf(p *Program, v ssa.Value, idx ssa.Value) map[int64]string {
+	var found *ssa.Global
+	seen := map[ssa.Value]bool{}
+	var walk func(x ssa.Value, d int)
+	walk = func(x ssa.Value, d int) {
+		if x == nil || seen[x] || d > 8 || found != nil {
+			return
+		}
+		seen[x] = true
+		if u, ok := x.(*ssa.UnOp); ok {
+			if ia, ok := u.X.(*ssa.IndexAddr); ok && ia.Index == idx {
+				if g, ok := ia.X.(*ssa.Global); ok {
+					found = g
+					return
+				}
+			}
+		}
+		if a, ok := x.(*ssa.Alloc); ok {
+			for _, r := range referrersOf(a) {
+				if fa, ok := r.(*ssa.FieldAddr); ok {
+					for _, rr := range referrersOf(fa) {
+						if st, ok := rr.(*ssa.Store); ok && st.Addr == ssa.Value(fa) {
+							walk(st.Val, d+1)
+						}
+					}
+				}
+				if st, ok := r.(*ssa.Store); ok && st.Addr == ssa.Value(a) {
+					walk(st.Val, d+1)
+				}
+			}
+			return
+		}
+		if _, isPhi := x.(*ssa.Phi); isPhi {
+			return
+		}
+		if in, ok := x.(ssa.Instruction); ok {
+			for _, op := range in.Operands(nil) {
+				if *op != nil {
+					walk(*op, d+1)
+				}
+			}
+		}
+	}
+	walk(v, 0)
+	if found == nil {
+		return nil
+	}
+	tagNames := constNames(p.Lang.Types, "TokenTag")
+	out := map[int64]string{}
+	for _, fn := range p.Funcs {
+		allInstrs(fn, func(in ssa.Instruction) {
+			st, ok := in.(*ssa.Store)
+			if !ok {
+				return
+			}
+			// element store directly into the global
+			if ia, ok := st.Addr.(*ssa.IndexAddr); ok && ia.X == ssa.Value(found) {
+				k, okK := constInt(ia.Index)
+				t, okT := constInt(st.Val)
+				if fn.Name() == "init" && okK && okT {
+					out[k] = tagNames[t]
+				} else {
+					out[-1] = "(written elsewhere)"
+				}
+				return
+			}
+			if st.Addr != ssa.Value(found) {
+				return
+			}
+			if fn.Name() != "init" {
+				out[-1] = "(written elsewhere)"
+				return
+			}
+			// whole-array store of a literal built in a local
+			if u, ok := st.Val.(*ssa.UnOp); ok {
+				if a, ok := u.X.(*ssa.Alloc); ok {
+					for _, r := range referrersOf(a) {
+						if ia, ok := r.(*ssa.IndexAddr); ok {
+							k, okK := constInt(ia.Index)
+							for _, rr := range referrersOf(ia) {
+								if s2, ok := rr.(*ssa.Store); ok && s2.Addr == ssa.Value(ia) {
+									if t, okT := constInt(s2.Val); okK && okT {
+										out[k] = tagNames[t]
+									}
+								}
+							}
+						}
+					}
+				}
+			}
+		})
+	}
+	return out
 }
